@@ -20,13 +20,23 @@ RULE = ('scenarios from one PRNG state over the configuration lattice: 2..5 chan
         'window as function (default hanning) or array; data shorter than, equal to and longer than NFFT (single zero-padded window .. many); '
         'lb/ub full band or off-grid band; prefer_speed_over_memory and scale_by_freq both ways; pair lists with repeated, self and reversed '
         'pairs; 1-d and 2-d seeds. One case per observable (freqs, coherency, psd, relative phase, phase, seed rows, dense side); '
+        'session 3: window handed over as array / list / tuple / float32 array / integer array / function (stratified by the scenario index); every 6th scenario '
+        'with exact binary64 grids (Fs, NFFT powers of two) and band edges ON a bin, 1 ulp below / above it, ub on / above Nyquist; analyzer series given '
+        'by rate, by an interval in ms / us, or with an explicit Fs in the method dict that overrides another series rate; an INPUT-FAMILY block: every '
+        'representation of the data (int16/int32/int64/uint8/float32/Fortran/strided/read-only/big-endian) x every window form, expectation = the dense '
+        'path on the values converted to float64 (exact); histories: one cache re-queried with other pair lists / after cache_to_psd and the phases / after a '
+        'second cache_fft with other band and flags, every result handed out (frequency vector too) overwritten in place, then the first query again on the '
+        'same and on a fresh cache; a NEW Sparse / Seed analyzer after all results of an earlier one were overwritten. '
         'distinct = distinct protocol line')
 ASSUMPTIONS = ['real-valued input, 0 <= n_overlap < NFFT, Fs > 0, real window with non-zero energy, 0 <= lb <= ub <= Fs/2',
                'band edges are generated off the frequency grid (or 0 / None), so that an ulp of difference between two evaluations of the same grid cannot move a bin',
                'scale_by_freq=False has no dense counterpart in get_spectra: the cached PSD is then compared with Fs x the dense density',
                'cache_to_relative_phase averages per-window angles; it is compared with the dense angle only for a single window (the property clause), '
                'with the model otherwise; DC / Nyquist bins (real spectra, angle 0 or pi by rounding) are left out of multi-window phase comparisons']
-TRUSTED_EXTRA = c08.TRUSTED_EXTRA[:3] + ['np.linspace, np.searchsorted by their numpy semantics (model: linspace0, searchLeft/Right, bit-exact)',
+TRUSTED_EXTRA = c08.TRUSTED_EXTRA[:3] + ['harness/translate_c09.py: which expression cache_fft assigns to window_vals in the sequence / function branch -> Generated/CacheWin.lean (echoed in the evidence)',
+                                         'Lemmas/C09FloatBand.lean models binary64 arithmetic by an abstract monotone rounding with r(0)=0 and relative error u (true of IEEE round-to-nearest); '
+                                         'that numpy evaluates get_freqs as fl(fl(k*fl(1/N))*Fs) is checked bit-for-bit by the correspondence (CohBase.getFreqs)',
+                                         'a window handed over as a float32 array makes numpy compute in single precision in the cache path AND in the dense path: those scenarios are compared at 3e-5, all others at 1e-9','np.linspace, np.searchsorted by their numpy semantics (model: linspace0, searchLeft/Right, bit-exact)',
                                          'reading of the CScalar-polymorphic definitions at K = Complex (theorems) vs K = binary64 pairs (run): parametricity, unproved']
 
 
@@ -36,10 +46,21 @@ def tsa():
 
 
 # ------------------------------------------------------------------ comparison (last token = data)
-def cmp_last(impl, model):
+def cmp_last(impl, model, rtol=None):
     if not (impl.startswith('ok ') and model.startswith('ok ')):
         return impl == model
-    return close_gen(parse_flist(impl.split(' ')[-1]), parse_flist(model.split(' ')[-1]))
+    a, b = parse_flist(impl.split(' ')[-1]), parse_flist(model.split(' ')[-1])
+    return close_gen(a, b) if rtol is None else close_gen(a, b, rtol)
+
+
+# a window handed over as a float32 array makes numpy do the window energy (and, with int16 / uint8 / float32 data, the
+# windowing and the FFT) in single precision -- in the cache path and in the dense path alike: "equal" then means equal to
+# single precision.  Every other combination is computed in binary64 and compared at 1e-9.
+SINGLE = 3e-5
+
+
+def cmp_last_single(impl, model):
+    return cmp_last(impl, model, SINGLE)
 
 
 def either(base):
@@ -47,8 +68,10 @@ def either(base):
     return base
 
 
-def mk_cmp_rows(nrow):
+def mk_cmp_rows(nrow, rtol=None):
     """last token = nrow rows of equal length, each compared at its own scale"""
+    cg = close_gen if rtol is None else (lambda a_, b_: close_gen(a_, b_, rtol))
+
     def cmp(impl, model):
         if not (impl.startswith('ok ') and model.startswith('ok ')):
             return impl == model
@@ -56,7 +79,7 @@ def mk_cmp_rows(nrow):
         if len(a) != len(b) or nrow <= 0 or len(a) % nrow:
             return False
         m = len(a) // nrow
-        return all(close_gen(a[r * m:(r + 1) * m], b[r * m:(r + 1) * m]) for r in range(nrow))
+        return all(cg(a[r * m:(r + 1) * m], b[r * m:(r + 1) * m]) for r in range(nrow))
     return cmp
 
 
@@ -125,7 +148,17 @@ def make_scenarios(rng, tier, seed):
         # band: full, or off-grid edges
         df = Fs / NFFT
         nf = NFFT // 2 + 1
-        if rng.random() < 0.4:
+        if s % 6 == 5 and NFFT in (8, 16, 32, 64):
+            # both frequency vectors are exact in binary64 (Fs a power of two, NFFT a power of two): edges exactly on a bin,
+            # one ulp below / above it, ub on / above the Nyquist bin
+            Fs = rng.choice([0.5, 1.0, 2.0, 8.0, 1024.0])
+            df = Fs / NFFT
+            i = rng.randrange(0, nf - 1)
+            j = rng.randrange(i, nf)
+            e = lambda k, d: k * df if d == 0 else float(np.nextafter(k * df, d * np.inf))
+            lb = max(0.0, e(i, rng.choice([-1, 0, 1])))
+            ub = rng.choice([e(j, rng.choice([-1, 0, 1])), e(nf - 1, 0), 1.5 * Fs / 2, None])
+        elif rng.random() < 0.4:
             lb, ub = 0.0, None
         else:
             i = rng.randrange(0, nf - 1)
@@ -150,18 +183,149 @@ def make_scenarios(rng, tier, seed):
         data = gen_data(nr, nch, n)
         if rng.random() < 0.3:        # tiny / very different channel amplitudes: nothing may be floored at an epsilon
             data = data * np.array([10.0 ** rng.choice([-9, -7, -5, -3, 0, 3]) for _ in range(nch)])[:, None]
-        out.append({'data': data.tolist(), 'NFFT': NFFT, 'nov': nov, 'win': wk,
-                    'winvals': None if wk == 'hann' else win_vals(wk, NFFT, nr), 'Fs': Fs,
-                    'lb': lb, 'ub': ub, 'ij': ij, 'sbf': rng.random() < 0.6, 'psm': rng.random() < 0.5, 'nseed': nseed})
+        sc = {'data': data.tolist(), 'NFFT': NFFT, 'nov': nov, 'win': wk,
+              'winvals': None if wk == 'hann' else win_vals(wk, NFFT, nr), 'Fs': Fs,
+              'lb': lb, 'ub': ub, 'ij': ij, 'sbf': rng.random() < 0.6, 'psm': rng.random() < 0.5, 'nseed': nseed}
+        if wk != 'hann':
+            set_wform(sc, WFORMS[s % len(WFORMS)], rng)
+        if Fs in FS_UNITS and s % 3 != 0:
+            sc['fsmode'] = ['series-ms', 'series-us', 'dict-wins'][(s // 3) % 3]
+        out.append(sc)
+    # the input-family block: every representation of the DATA x every way of giving the window (small, cheap scenarios)
+    fam = 0
+    for dv in DVARS:
+        for wf in WFORMS + ['default']:
+            fam += 1
+            if not big and dv in ('F', 'strided', 'readonly', 'bigendian') and wf not in ('array', 'default', 'func'):
+                continue
+            nch = 2 + fam % 2
+            NFFT = [8, 16, 7, 15][fam % 4]
+            n = [4 * NFFT + 3, NFFT, NFFT - 2, 6 * NFFT][(fam // 4) % 4]
+            X0 = gen_data(nr, nch, n)
+            import histories
+            v = histories.dtype_family(X0, kinds=(dv,))
+            if not v:
+                continue
+            Xf = np.asarray(v[0][1]).astype(float)            # the values the variant holds, exactly
+            Fs = [1.0, 250.0, 2 * math.pi, 10.0][fam % 4]
+            nf = NFFT // 2 + 1
+            if fam % 3 == 0:
+                lb, ub = 0.0, None
+            elif fam % 9 == 4:
+                lb, ub = 0.0, 0.0                              # the DC bin alone: an explicit 0.0 is a value, not "unset"
+            else:
+                i = rng.randrange(0, nf - 1)
+                lb, ub = max(0.0, (i - 0.5) * Fs / NFFT), (rng.randrange(i + 1, nf + 1) - 0.5) * Fs / NFFT
+            sc = {'data': Xf.tolist(), 'dvar': dv, 'NFFT': NFFT, 'nov': [None, 0, NFFT // 2][fam % 3], 'win': 'hann' if wf == 'default' else 'hamming',
+                  'winvals': None if wf == 'default' else win_vals('hamming', NFFT, nr), 'Fs': Fs, 'lb': lb, 'ub': ub,
+                  'ij': [(0, 1), (1, 0), (nch - 1, nch - 1), (0, 1)], 'sbf': bool(fam % 2), 'psm': bool((fam // 2) % 2),
+                  'nseed': [0, 1][fam % 2], 'light': True}
+            if wf != 'default':
+                set_wform(sc, wf, rng)
+            sc['ijform'] = [None, 'tuple', 'lists', 'ndarray'][fam % 4]
+            out.append(sc)
     return out
 
 
-def method_of(sc):
+DVARS = ['int16', 'int32', 'int64', 'uint8', 'float32', 'F', 'strided', 'readonly', 'bigendian']
+WFORMS = ['array', 'list', 'float32', 'intarr', 'func', 'tuple']
+FS_UNITS = {1.0: (1000.0, 1e6), 2.0: (500.0, 5e5), 10.0: (100.0, 1e5), 250.0: (4.0, 4000.0)}     # rate -> interval in ms, in us
+
+
+def set_wform(sc, wf, rng):
+    """how the window reaches cache_fft: sc['winvals'] always holds the VALUES (float64, exact) the given object denotes"""
+    sc['wform'] = wf
+    if wf == 'float32':
+        sc['winvals'] = np.array(sc['winvals'], dtype=np.float32).astype(float).tolist()
+    elif wf == 'intarr':
+        sc['winvals'] = [float(rng.randrange(1, 7)) for _ in sc['winvals']]
+
+
+def window_arg(sc):
+    """the object put into method['window'] for the cache paths"""
+    v = sc['winvals']
+    wf = sc.get('wform', 'array')
+    if wf == 'list':
+        return [float(x) for x in v]
+    if wf == 'tuple':
+        return tuple(float(x) for x in v)
+    if wf == 'float32':
+        return np.array(v, dtype=np.float32)
+    if wf == 'intarr':
+        return np.array(v).astype(np.int64)
+    if wf == 'func':
+        return lambda x, h=np.array(v): h * x
+    return np.array(v)
+
+
+def ij_arg(sc):
+    """the pair list in the form sc['ijform']: list of tuples (default), tuple of tuples, list of lists, integer ndarray"""
+    ij = [tuple(p) for p in sc['ij']]
+    f = sc.get('ijform')
+    if f == 'tuple':
+        return tuple(ij)
+    if f == 'lists':
+        return [list(p) for p in ij]
+    if f == 'ndarray':
+        return np.array(ij)
+    return ij
+
+
+def data_arg(sc):
+    """the data in the representation sc['dvar'] (exactly the values of sc['data'])"""
+    X = np.array(sc['data'], dtype=float)
+    dv = sc.get('dvar')
+    if dv is None:
+        return X
+    if dv in ('int16', 'int32', 'int64', 'uint8', 'float32'):
+        return X.astype(dv)
+    if dv == 'F':
+        return np.asfortranarray(X)
+    if dv == 'strided':
+        big = np.zeros((X.shape[0], 2 * X.shape[1]))
+        big[:, ::2] = X
+        return big[:, ::2]
+    if dv == 'readonly':
+        X.flags.writeable = False
+        return X
+    if dv == 'bigendian':
+        return X.astype('>f8')
+    raise KeyError(dv)
+
+
+def dt_class(sc):
+    dv = sc.get('dvar')
+    return 'int' if dv in ('int16', 'int32', 'int64', 'uint8') else 'f32' if dv == 'float32' else 'f64'
+
+
+def method_of(sc, dense=False):
+    """dense=True: the reference computation gets the window VALUES as a float64 array (mlab takes arrays and functions only)"""
     m = {'this_method': 'welch', 'NFFT': sc['NFFT'], 'Fs': sc['Fs']}
     if sc['nov'] is not None:
         m['n_overlap'] = sc['nov']
     if sc['winvals'] is not None:
-        m['window'] = np.array(sc['winvals'])
+        m['window'] = np.array(sc['winvals']) if dense else window_arg(sc)
+    return m
+
+
+def series_of(sc, X, fs=None):
+    """the TimeSeries handed to an analyzer: rate given directly, or through a sampling interval in ms / us"""
+    import nitime.timeseries as ts
+    fs = sc['Fs'] if fs is None else fs
+    fm = sc.get('fsmode')
+    if fm == 'series-ms':
+        return ts.TimeSeries(X, sampling_interval=FS_UNITS[fs][0], time_unit='ms')
+    if fm == 'series-us':
+        return ts.TimeSeries(X, sampling_interval=FS_UNITS[fs][1], time_unit='us')
+    if fm == 'dict-wins':
+        return ts.TimeSeries(X, sampling_rate=3.0 * fs, time_unit='ms')       # the explicit 'Fs' of the method dict overrides it
+    return ts.TimeSeries(X, sampling_rate=fs)
+
+
+def analyzer_method(sc):
+    m = method_of(sc)
+    if sc.get('fsmode') in ('series-ms', 'series-us'):
+        del m['Fs']                                                           # the rate comes from the series alone
     return m
 
 
@@ -176,18 +340,20 @@ def impl_results(sc):
     import nitime.timeseries as ts
     from nitime.analysis import SparseCoherenceAnalyzer, SeedCoherenceAnalyzer
     X = np.array(sc['data'], dtype=float)
+    Xv = data_arg(sc)
     ij = [tuple(p) for p in sc['ij']]
     R = {}
     kw = dict(lb=sc['lb'], ub=sc['ub'], prefer_speed_over_memory=sc['psm'], scale_by_freq=sc['sbf'])
 
     def cache_all(psm):
         k2 = dict(kw, prefer_speed_over_memory=psm)
-        freqs, cache = A.cache_fft(X, ij, method=method_of(sc), **k2)
+        ija = ij_arg(sc)
+        freqs, cache = A.cache_fft(Xv, ija, method=method_of(sc), **k2)
         chans = sorted({c for p in ij for c in p})
-        coh = A.cache_to_coherency(cache, ij)
-        psd = A.cache_to_psd(cache, ij)
-        rel = A.cache_to_relative_phase(cache, ij)
-        ph = A.cache_to_phase(cache, ij)
+        coh = A.cache_to_coherency(cache, ija)
+        psd = A.cache_to_psd(cache, ija)
+        rel = A.cache_to_relative_phase(cache, ija)
+        ph = A.cache_to_phase(cache, ija)
         nb_ = int(cache['FFT_slices'][chans[0]].shape[1])
         freqs = np.array(freqs)
         if len(freqs) != nb_:      # older trees return the full grid: cut the band the way cache_fft does
@@ -204,8 +370,8 @@ def impl_results(sc):
     R['cache_other'] = run(lambda: cache_all(not sc['psm']))
 
     def sparse():
-        T = ts.TimeSeries(X, sampling_rate=sc['Fs'])
-        S = SparseCoherenceAnalyzer(T, ij, method=method_of(sc), **kw)
+        T = series_of(sc, Xv)
+        S = SparseCoherenceAnalyzer(T, ij_arg(sc), method=analyzer_method(sc), **kw)
         coh = np.asarray(S.coherency)
         return {'coherency': np.array([coh[i, j] for i, j in ij]).reshape(len(ij), -1),
                 'coherence': np.array([np.asarray(S.coherence)[i, j] for i, j in ij]).reshape(len(ij), -1),
@@ -215,26 +381,32 @@ def impl_results(sc):
 
     def seed():
         ns = sc['nseed']
-        sd = X[0] if ns == 0 else X[:ns]
-        tg = X[max(ns, 1):]
-        S = SeedCoherenceAnalyzer(ts.TimeSeries(sd, sampling_rate=sc['Fs']), ts.TimeSeries(tg, sampling_rate=sc['Fs']),
-                                  method=method_of(sc), **kw)
+        sd = Xv[0] if ns == 0 else Xv[:ns]
+        tg = Xv[max(ns, 1):]
+        S = SeedCoherenceAnalyzer(series_of(sc, sd), series_of(sc, tg), method=analyzer_method(sc), **kw)
         return {'coherency': np.asarray(S.coherency), 'frequencies': np.asarray(S.frequencies)}
     R['seed'] = run(seed)
     # dense reference (the oracle's side)
-    R['dense'] = run(lambda: A.get_spectra(X, method_of(sc)))
-    R['dense_coh'] = run(lambda: A.coherency(X, method_of(sc)))
+    R['dense'] = run(lambda: A.get_spectra(X, method_of(sc, dense=True)))
+    R['dense_coh'] = run(lambda: A.coherency(X, method_of(sc, dense=True)))
     return R
 
 
 # ------------------------------------------------------------------ cases
-def win_tok(sc):
-    return 'hann' if sc['winvals'] is None else flist(sc['winvals'])
+def win_tok(sc, dense=False):
+    """cache side: how the window was given + the dtype class of the data (the model resolves it as the source does);
+    dense side: the values"""
+    if dense:
+        return 'hann' if sc['winvals'] is None else flist(sc['winvals'])
+    dt = dt_class(sc)
+    if sc['winvals'] is None:
+        return 'hann/' + dt
+    return '%s/%s/%s' % ('f' if sc.get('wform') == 'func' else 'a', dt, flist(sc['winvals']))
 
 
 def head(sc, dflt):
     nov = dflt if sc['nov'] is None else str(sc['nov'])
-    return '%d %s %s %s' % (sc['NFFT'], nov, f2x(sc['Fs']), win_tok(sc))
+    return '%d %s %s %s' % (sc['NFFT'], nov, f2x(sc['Fs']), win_tok(sc, dense=(dflt == 'dfunc')))
 
 
 def cases_of(sc, R, si):
@@ -244,6 +416,9 @@ def cases_of(sc, R, si):
     ubt = 'none' if sc['ub'] is None else f2x(sc['ub'])
     pre = 'C09 cache %%s %s %d %d %s %s %s %s' % (head(sc, 'dcache'), sc['sbf'], sc['psm'], f2x(sc['lb']), ubt, ijt, ' '.join(flist(x) for x in X))
     meta = lambda obs: {'sc': si, 'obs': obs}
+    f32w = sc.get('wform') == 'float32'
+    cmp_last_ = cmp_last_single if f32w else cmp_last
+    atol = 1e-3 if f32w else 1e-6
     c = R['cache']
     nf = sc['NFFT'] // 2 + 1
     if isinstance(c, str):
@@ -252,9 +427,9 @@ def cases_of(sc, R, si):
         fr = c['freqs']          # the frequencies of the cached band
         fdense = np.arange(nf) * sc['Fs'] / sc['NFFT']
         li = int(np.searchsorted(fdense, sc['lb'], 'left'))
-        out.append(Case(pre % 'freqs', 'ok ' + flist(fr), 'cache/freqs', cmp=either(cmp_last), meta=meta('freqs')))
-        out.append(Case(pre % 'coherency', 'ok ' + clist(c['coherency'].reshape(-1)), 'cache/coherency', cmp=either(cmp_last), meta=meta('coherency')))
-        out.append(Case(pre % 'psd', 'ok ' + flist(c['psd'].reshape(-1)), 'cache/psd', cmp=mk_cmp_rows(c['psd'].shape[0]), meta=meta('psd')))
+        out.append(Case(pre % 'freqs', 'ok ' + flist(fr), 'cache/freqs', cmp=either(cmp_last_), meta=meta('freqs')))
+        out.append(Case(pre % 'coherency', 'ok ' + clist(c['coherency'].reshape(-1)), 'cache/coherency', cmp=either(cmp_last_), meta=meta('coherency')))
+        out.append(Case(pre % 'psd', 'ok ' + flist(c['psd'].reshape(-1)), 'cache/psd', cmp=mk_cmp_rows(c['psd'].shape[0], SINGLE if f32w else None), meta=meta('psd')))
         nb = c['coherency'].shape[1]
         # phase comparisons: all bins for one window (on the circle); interior bins for several windows
         edge = [(li + t == 0) or (sc['NFFT'] % 2 == 0 and li + t == sc['NFFT'] // 2) for t in range(nb)]
@@ -262,21 +437,21 @@ def cases_of(sc, R, si):
         mag = np.abs(c['coherency'])
         m_rel = [(single or not edge[t]) and np.isfinite(mag[p, t]) for p in range(len(sc['ij'])) for t in range(nb)]
         out.append(Case(pre % 'relphase', 'ok ' + flist(c['relphase'].reshape(-1)), 'cache/relphase',
-                        cmp=either(mk_cmp_angles(m_rel, circle=single)), meta=meta('relphase')))
+                        cmp=either(mk_cmp_angles(m_rel, circle=single, tol=atol)), meta=meta('relphase')))
         nchu = c['phase'].shape[0]
         m_ph = [(single or not edge[t]) for _ in range(nchu) for t in range(nb)]
         out.append(Case(pre % 'phase', 'ok ' + flist(c['phase'].reshape(-1)), 'cache/phase',
-                        cmp=either(mk_cmp_angles(m_ph, circle=single)), meta=meta('phase')))
+                        cmp=either(mk_cmp_angles(m_ph, circle=single, tol=atol)), meta=meta('phase')))
     s = R['sparse']
     if isinstance(s, str):
         out.append(Case(pre % 'coherency', s, 'sparse/error', meta=meta('sparse-error')))
     else:
-        out.append(Case(pre % 'coherency', 'ok ' + clist(s['coherency'].reshape(-1)), 'sparse/coherency', cmp=either(cmp_last), meta=meta('sparse-coherency')))
+        out.append(Case(pre % 'coherency', 'ok ' + clist(s['coherency'].reshape(-1)), 'sparse/coherency', cmp=either(cmp_last_), meta=meta('sparse-coherency')))
     sd = R['seed']
     ns = sc['nseed']
     line = 'C09 seed %s %d %d %s %s %d %s' % (head(sc, 'dcache'), sc['sbf'], sc['psm'], f2x(sc['lb']), ubt, ns, ' '.join(flist(x) for x in X))
     out.append(Case(line, sd if isinstance(sd, str) else 'ok ' + clist(np.asarray(sd['coherency']).reshape(-1)), 'seed/coherency',
-                    cmp=either(cmp_last), meta=meta('seed')))
+                    cmp=either(cmp_last_), meta=meta('seed')))
     # the two frequency formulas of the generic model: k*Fs/N against the dense grid, the linspace text against utils.get_freqs
     if not isinstance(R['dense'], str):
         import nitime.utils as U
@@ -313,10 +488,15 @@ def cases(rng, tier, seed):
 
 # ------------------------------------------------------------------ oracle: the dense implementation
 def cfg_class(sc, nslices):
-    return '%s-nfft/%s-overlap/%s/%s' % ('even' if sc['NFFT'] % 2 == 0 else 'odd',
-                                       'default' if sc['nov'] is None else 'explicit',
-                                       'full-band' if (sc['lb'] == 0 and sc['ub'] is None) else 'band-limited',
-                                       'single-window' if nslices == 1 else 'multi-window')
+    fam = ''
+    if sc.get('dvar'):
+        fam += '/%s-data' % sc['dvar']
+    if sc.get('wform') not in (None, 'array'):
+        fam += '/window-as-%s' % sc['wform']
+    return '%s-nfft/%s-overlap/%s/%s%s' % ('even' if sc['NFFT'] % 2 == 0 else 'odd',
+                                         'default' if sc['nov'] is None else 'explicit',
+                                         'full-band' if (sc['lb'] == 0 and sc['ub'] is None) else 'band-limited',
+                                         'single-window' if nslices == 1 else 'multi-window', fam)
 
 
 def judge(sc, R):
@@ -335,7 +515,7 @@ def judge(sc, R):
     li = int(np.searchsorted(f, sc['lb'], 'left'))
     ui = len(f) if sc['ub'] is None else int(np.searchsorted(f, sc['ub'], 'right'))
     cls = cfg_class(sc, c['nslices'])
-    tol = 1e-9
+    tol = SINGLE if sc.get('wform') == 'float32' else 1e-9
 
     def differs(a, b):
         a, b = np.asarray(a), np.asarray(b)
@@ -390,7 +570,7 @@ def judge(sc, R):
         dang = np.angle(np.array([fxy[min(i, j), max(i, j), li:ui] if i <= j else np.conj(fxy[j, i, li:ui]) for i, j in ij]).reshape(len(ij), -1))
         big = np.abs(want) > 1e-6
         e = np.array([circ(x) for x in (c['relphase'] - dang)[big & np.isfinite(np.abs(want))]])
-        if e.size and e.max() > 1e-6:
+        if e.size and e.max() > (1e-3 if sc.get('wform') == 'float32' else 1e-6):
             fails.append(('relphase/%s/ne-dense-angle' % cls, 'cache_to_relative_phase differs from the angle of the dense cross-spectrum by %.3g' % e.max(), 'relphase'))
     # both memory settings
     o = R['cache_other']
@@ -400,8 +580,10 @@ def judge(sc, R):
         for k in ('coherency', 'psd', 'relphase', 'phase'):
             if not np.array_equal(np.nan_to_num(c[k]), np.nan_to_num(o[k])):
                 fails.append(('memory-setting/%s/differs' % k, 'prefer_speed_over_memory changes %s' % k, k))
-    sparse_reuse_checks(sc, fails.append)
-    cache_identity_checks(sc, fails.append)
+    if not sc.get('light'):
+        sparse_reuse_checks(sc, fails.append)
+        cache_identity_checks(sc, fails.append)
+        cache_history_checks(sc, fails.append)
     # seed rows against the dense result on the stacked channels
     sd = R['seed']
     ns = sc['nseed']
@@ -433,7 +615,7 @@ def sparse_reuse_checks(sc, bad):
     variants = [('explicit-method', lambda: method_of(sc), Fs, sc['lb'], sc['ub']),
                 ('default-method', lambda: None, 2.0 * Fs, 0.0, None)]
     for vname, mk, Fs2, lb, ub in variants:
-        m_exp = mk() or {'this_method': 'welch', 'Fs': Fs2}
+        m_exp = (method_of(sc, dense=True) if mk() else None) or {'this_method': 'welch', 'Fs': Fs2}
         want = run(lambda: A.coherency(X2, dict(m_exp)))
         if isinstance(want, str):
             continue
@@ -464,6 +646,85 @@ def sparse_reuse_checks(sc, bad):
             if not c08.same(got[1], f[li:ui]):
                 bad(('sparse-reuse/%s/%s/stale-frequencies' % (vname, order),
                      'SparseCoherenceAnalyzer re-targeted with set_input: .frequencies differ from the dense grid of the new input', 'sparse-coherency'))
+
+
+def cache_history_checks(sc, bad):
+    """process histories (L2) and handed-out results (L6): ONE cache queried again and again -- other pair lists, after
+    cache_to_psd / the phases -- with everything handed out so far (frequency vector included) overwritten in place, and
+    another cache_fft call with other pairs / band / flags in between; then the first query again, on the same cache and
+    on a fresh one.  Analyzers: all results of one analyzer overwritten, then a NEW analyzer on the same series."""
+    import histories
+    A = tsa()
+    from nitime.analysis import SparseCoherenceAnalyzer, SeedCoherenceAnalyzer
+    X = np.array(sc['data'], dtype=float)
+    ij = [tuple(p) for p in sc['ij']]
+    chans = sorted({c for p in ij for c in p})
+    kw = dict(lb=sc['lb'], ub=sc['ub'], prefer_speed_over_memory=sc['psm'], scale_by_freq=sc['sbf'])
+    pick = lambda c_: np.array([c_[i, j] for i, j in ij])
+    pickp = lambda p_: np.array([np.real(np.asarray(p_[c])).reshape(-1) for c in chans])
+
+    def go():
+        f, cache = A.cache_fft(X, ij, method=method_of(sc), **kw)
+        c1 = A.cache_to_coherency(cache, ij)
+        p1 = A.cache_to_psd(cache, ij)
+        r1 = A.cache_to_relative_phase(cache, ij)
+        h1 = A.cache_to_phase(cache, ij)
+        first = (pick(c1).copy(), pickp(p1).copy(), np.array(f, copy=True), pick(r1).copy())
+        rev = [(b, a) for a, b in ij]
+        others = [A.cache_to_coherency(cache, ij[:1]), A.cache_to_coherency(cache, rev), A.cache_to_psd(cache, rev),
+                  A.cache_to_relative_phase(cache, rev)]
+        f2, cache2 = A.cache_fft(X, rev + [(chans[0], chans[0])], lb=0, ub=None, method=method_of(sc),
+                                 prefer_speed_over_memory=not sc['psm'], scale_by_freq=not sc['sbf'])
+        others.append(A.cache_to_psd(cache2, rev))
+        for h in [c1, p1, r1, h1, f, f2] + others:
+            histories.scribble(h)
+        again = (pick(A.cache_to_coherency(cache, ij)), pickp(A.cache_to_psd(cache, ij)), None, pick(A.cache_to_relative_phase(cache, ij)))
+        f3, cache3 = A.cache_fft(X, ij, method=method_of(sc), **kw)
+        fresh = (pick(A.cache_to_coherency(cache3, ij)), pickp(A.cache_to_psd(cache3, ij)), np.array(f3), pick(A.cache_to_relative_phase(cache3, ij)))
+        return first, again, fresh
+    r = run(go)
+    if isinstance(r, str):
+        bad(('cache-history/raises', 'a cache queried repeatedly raised ' + r, 'coherency'))
+    else:
+        first, again, fresh = r
+        names = ('coherency', 'psd', 'freqs', 'relphase')
+        for k, nm in enumerate(names):
+            if again[k] is not None and not c08.same(np.nan_to_num(again[k]), np.nan_to_num(first[k]), 1e-12):
+                bad(('cache-history/%s/requery-differs' % nm, 'cache_to_%s on the SAME cache, after other pair lists / cache_to_psd / phases were read and every '
+                     'result handed out was overwritten in place, differs from its first answer' % nm, nm if nm != 'freqs' else 'freqs'))
+            if not c08.same(np.nan_to_num(fresh[k]), np.nan_to_num(first[k]), 1e-12):
+                bad(('cache-history/%s/fresh-cache-differs' % nm, '%s from a fresh cache_fft call after that history differs from the first answer' % nm,
+                     nm if nm != 'freqs' else 'freqs'))
+    # analyzers: scribble on everything one analyzer handed out, then a NEW analyzer with an equal method dict
+    ns = sc['nseed']
+    sd, tg = (X[0] if ns == 0 else X[:ns]), X[max(ns, 1):]
+
+    def sparse_twice():
+        outs = []
+        for rnd in range(2):
+            S = SparseCoherenceAnalyzer(series_of(sc, X), ij, method=analyzer_method(sc), **kw)
+            got = [S.coherency, S.spectrum, S.frequencies, S.relative_phases, S.coherence]
+            outs.append((pick(np.asarray(got[0])).copy(), np.array(got[2], copy=True)))
+            for g in got:
+                histories.scribble(g)
+        return outs
+
+    def seed_twice():
+        outs = []
+        for rnd in range(2):
+            S = SeedCoherenceAnalyzer(series_of(sc, sd), series_of(sc, tg), method=analyzer_method(sc), **kw)
+            got = [S.coherency, S.frequencies, S.coherence, S.relative_phases]
+            outs.append((np.array(got[0], copy=True), np.array(got[1], copy=True)))
+            for g in got:
+                histories.scribble(g)
+        return outs
+    for nm, fn in (('sparse', sparse_twice), ('seed', seed_twice)):
+        r = run(fn)
+        if isinstance(r, str):
+            continue
+        if not c08.same(np.nan_to_num(r[0][0]), np.nan_to_num(r[1][0]), 1e-12) or not c08.same(r[0][1], r[1][1], 0.0):
+            bad(('%s-history/new-analyzer-after-scribble-differs' % nm, 'a NEW %sCoherenceAnalyzer, built after every result of an earlier one was overwritten '
+                 'in place, reports other coherency / frequencies than the earlier one did' % nm.capitalize(), 'sparse-coherency' if nm == 'sparse' else 'seed'))
 
 
 def cache_identity_checks(sc, bad):
